@@ -29,8 +29,9 @@ func init() {
 				Procs:    16,
 				Rule: "(a) deterministic runs: buffer sizes 2..64 and a few large ones, streams whose number of distinct values is below, at and far above the size, every value repeated 1..4 times in interleaved order, Reset at random points; after EVERY Add: Count == exact number of distinct values while fewer than size distinct values have been added since creation/Reset, Len <= size, Count == Len * 2^j with j an integer that never decreases until Reset; after Reset: Len == 0, Count == 0 and the exact regime again. " +
 					"(b) statistical configurations (size, D): sizes 8, 16, 64 with D below, 10x and 100x the size using R = 4000 (40000 thorough) independent seeded counters each, sizes 4, 5, 6 with D = 48 and 600 using R = 200000 (larger R because the estimator is more skewed there), sizes 64..256 with enough distinct values for many halving rounds, and scripted streams that sit just above capacity with the zero value of the element type at the critical position (first Add after the buffer fills, first Add overall, back-to-back repeats), and streams counted after a Reset that followed a long run far above capacity; the fixed stream repeats every value 1..3 times, interleaved; |mean(Count) - D| <= 7 * sd/sqrt(R) + 0.002 * D. (c) natively seeded counters (the reseeding hook is not used: NewCounter's own seeding is part of what is monitored): 20 000..140 000 counters per configuration on one stream, mean test as above, and no lag L at which run r and run r+L agree at all of 8 checkpoints for 99 % of 300+ pairs (independence of repeated runs). (d) scripted coin flips (hook VerifSetSource): counters taken through up to 60 halving rounds in a few thousand Adds, deterministic clauses checked after every Add. Sizes 2 and 3 get the deterministic clauses only (estimator too heavy-tailed for a CLT-based tolerance). " +
+					"(e) buffers of 1025..3000 elements stopped at their first halving pass: the number of values that remain is Binomial(L, 1/2) exactly (L = values buffered before the pass); mean and variance over 16*size (48*size thorough) seeded runs are compared with L/2 and L/4 at 6.5 standard errors, which is less than one element. " +
 					"All randomness derives from VERIF_SEED. distinct = hash(size, stream, seed) of deterministic runs + one per statistical configuration; non-trivial = the run went above capacity (at least one halving)",
-				Required:     []string{"deterministic_runs", "adds_checked", "exact_regime_checks", "halvings_observed", "resets", "statistical_configs", "statistical_runs", "runs_with_repeats_above_capacity", "resets_on_empty_buffer", "natively_seeded_runs", "scripted_coin_runs", "very_large_buffer_runs"},
+				Required:     []string{"deterministic_runs", "adds_checked", "exact_regime_checks", "halvings_observed", "resets", "statistical_configs", "statistical_runs", "runs_with_repeats_above_capacity", "resets_on_empty_buffer", "natively_seeded_runs", "scripted_coin_runs", "very_large_buffer_runs", "first_halving_configs"},
 				Assumptions:  []string{"CLT tolerance: 7 sample standard errors + 0.2 % of D; measured skewness is reported in the evidence (|skew| * 343 / (6 sqrt(R)) stays below 1, so the normal tail 2.6e-12 is off by a small factor only)", "the hook distinct.VerifReseed only replaces the random source of a counter built by NewCounter"},
 				CoverPkgs:    []string{"github.com/creachadair/mds/distinct"},
 				CoverAnchors: []string{"distinct/distinct.go:NewCounter", "distinct/distinct.go:Add", "distinct/distinct.go:Count", "distinct/distinct.go:Len", "distinct/distinct.go:Reset"},
@@ -382,7 +383,79 @@ func c19native(c *fw.Ctx, size, D, R int) {
 	c.SeenEnum(1)
 }
 
+// c19firstHalving: buffers of 1000..3000 elements, where the counter is
+// stopped at its first halving pass. Up to that pass every value is accepted,
+// so with L values buffered before it the number that remain is Binomial(L,
+// 1/2) exactly; its mean and variance are compared with L/2 and L/4 over
+// 16*size independently seeded runs (48*size in thorough), which makes 6.5
+// standard errors of the mean less than one element: a pass that lets a single
+// element too many (or too few) through is visible.
+func c19firstHalving(c *fw.Ctx, size, runs, no int) {
+	var sum, sum2 float64
+	before := -1
+	data := map[string]any{"size": size, "runs": runs, "phase": "first halving pass"}
+	for run := 0; run < runs; run++ {
+		ctr := distinct.NewCounter[int](size)
+		distinct.VerifReseed(ctr, c19seed(c.Seed, uint64(no)<<32|uint64(run), 0xf1a))
+		base := run * 3
+		n := 0
+		for ; n <= size+1 && ctr.Count() == uint64(ctr.Len()) && ctr.Len() == n; n++ {
+			ctr.Add(base + n)
+		}
+		ln := ctr.Len()
+		if n > size+1 || ln > size {
+			c.Fail(data, "run %d: %d distinct values added to a counter of size %d: Len=%d Count=%d (no halving pass, or the buffer exceeds its size)", run, n, size, ln, ctr.Count())
+			return
+		}
+		if before < 0 {
+			before = n
+		} else if before != n {
+			c.Fail(data, "run %d: the first halving pass came after %d values, in earlier runs after %d", run, n, before)
+			return
+		}
+		if ctr.Count() != 2*uint64(ln) {
+			c.Fail(data, "run %d: after the first halving pass Len=%d Count=%d, want Count = 2*Len", run, ln, ctr.Count())
+			return
+		}
+		d := float64(ln) - float64(n)/2
+		sum += d
+		sum2 += d * d
+		if run%64 == 0 {
+			c.Step()
+		}
+	}
+	R := float64(runs)
+	L := float64(before)
+	mean := sum / R
+	se := math.Sqrt(L / 4 / R)
+	variance := sum2/R - mean*mean
+	data["values_buffered_before_the_pass"] = before
+	data["mean_of_Len_minus_half"] = mean
+	data["standard_error"] = se
+	data["variance_over_quarter"] = variance / (L / 4)
+	if math.Abs(mean) > 6.5*se {
+		c.Fail(data, "size %d: after the first halving pass over %d buffered values, Len - %d/2 has mean %+.3f over %d runs; each value should remain with probability 1/2, which puts the mean within 6.5 standard errors (%.3f) of zero", size, before, before, mean, runs, 6.5*se)
+		return
+	}
+	if rel := variance/(L/4) - 1; math.Abs(rel) > 6.5*math.Sqrt(2/R) {
+		c.Fail(data, "size %d: after the first halving pass the variance of Len over %d runs is %.4f times that of Binomial(%d, 1/2); 6.5 standard errors allow a deviation of %.4f", size, runs, variance/(L/4), before, 6.5*math.Sqrt(2/R))
+		return
+	}
+	c.Add("first_halving_runs_at_sizes_1000_to_3000", int64(runs))
+	c.Add("first_halving_configs", 1)
+	if c.WantSample() {
+		c.Sample(data)
+	}
+}
+
 func runC19(c *fw.Ctx) {
+	if c.Flavour == "plain" && c.Begin(1<<22+100+c.Block) {
+		size := []int{1025, 1100, 1200, 1300, 1500, 1600, 1800, 2049, 2100, 2200, 2300, 2500, 2600, 2800, 3000, 1030}[c.Block%16]
+		ok, pv, stack := fw.Try(func() { c19firstHalving(c, size, c.Pick(16, 48)*size, c.Block) })
+		if !ok {
+			c.FailKind("panic", map[string]any{"phase": "first halving pass", "size": size}, "panic: %v\n%s", pv, stack)
+		}
+	}
 	for k := 0; k < 6; k++ {
 		if !c.Begin(1<<22 + k) {
 			continue
